@@ -176,7 +176,12 @@ func (g *Gen) Leaf(ty *Ty) *X {
 		if g.pick(14, "fnan") == 0 {
 			// NaN, +Inf, -Inf as values: the environment holds finite floats only (replay files are JSON)
 			zero := Bin("-", Var("G", TF64), Var("G", TF64), TF64)
-			switch g.pick(4, "fnank") {
+			switch g.pick(6, "fnank") {
+			case 4:
+				// the sign of a zero: 0.0 and -0.0 in one program, made observable by a division
+				return Bin("+", Bin("*", LitFloat(0), Var("F", TF64), TF64), Bin("/", LitFloat(1.5), Un("-", LitFloat(0), TF64), TF64), TF64)
+			case 5:
+				return Bin("/", Var("G", TF64), Bin("*", Un("-", LitFloat(0), TF64), Bin("+", LitFloat(0), LitFloat(1.5), TF64), TF64), TF64)
 			case 0, 1:
 				return Bin("/", Bin("-", Var("F", TF64), Var("F", TF64), TF64), zero, TF64)
 			case 2:
@@ -726,6 +731,13 @@ func (g *Gen) boolean(d int) *X {
 var validPatterns = []string{"a", "^a", "b$", "a.c", "^$", "[a-c]+", "(a|b)c", "\\d", "é", ".*"}
 
 func (g *Gen) matches(d int) *X {
+	if g.pick(8, "catpat") == 0 {
+		// a pattern that only constant folding turns into one string literal; it may be no valid pattern, which
+		// is a failure of the evaluation of this `matches` (if it is evaluated), never of the compilation
+		parts := []string{"", "a", "^a", "b$", "(", ")", "[", "a.c", "x|", "*"}
+		pat := Bin("+", LitStr(parts[g.pick(len(parts), "cp1")]), LitStr(parts[g.pick(len(parts), "cp2")]), TStr)
+		return Bin("matches", g.str(d-1), pat, TBool)
+	}
 	if g.pick(3, "dynpat") == 0 {
 		// dynamic pattern from the environment: may be invalid at run time
 		return Bin("matches", g.str(d-1), Var([]string{"S", "S2"}[g.pick(2, "patvar")], TStr), TBool)
